@@ -15,6 +15,10 @@ macro_rules! backend_mod {
             pub const BE_NAME: &str = $name;
             pub const IS_FFT64: bool = $fft;
             include!("hal_common.rs");
+            pub mod c08 {
+                use super::*;
+                include!("props/c08.rs");
+            }
             pub mod c09 {
                 use super::*;
                 include!("props/c09.rs");
@@ -57,10 +61,15 @@ fn main() {
         eprintln!("usage: pvm <prop> --seed S --shard i/n --tier quick|thorough --out file.json [--backend list] [--mode m]");
         std::process::exit(2);
     }
+    if args[0] == "count-distinct" {
+        println!("{}", util::count_distinct(&args[1]));
+        return;
+    }
     let cfg = Cfg::parse(&args);
     let mut rep = Report::new(&cfg.prop);
     let t0 = std::time::Instant::now();
     match cfg.prop.as_str() {
+        "c08" => on_backends!(&cfg, &mut rep, c08),
         "c09" => on_backends!(&cfg, &mut rep, c09),
         other => {
             eprintln!("unknown property {other}");
